@@ -139,6 +139,11 @@ class StlAstParserVisitor(LtlAstParserVisitor, StlParserVisitor):
     def visitInterval(self, ctx):
         begin, begin_unit = self.visit(ctx.intervalTime(0))
         end, end_unit = self.visit(ctx.intervalTime(1))
+        # a bound without a unit takes the unit of the other bound (else both are in the default unit)
+        b_scale = self.U[begin_unit or end_unit] if (begin_unit or end_unit) else 1
+        e_scale = self.U[end_unit or begin_unit] if (begin_unit or end_unit) else 1
+        if begin < 0 or begin * b_scale > end * e_scale:
+            raise RTAMTException('The interval {} must satisfy 0 <= begin <= end'.format(ctx.getText()))
         interval = Interval(begin, end, begin_unit, end_unit)
         return interval
 
